@@ -171,6 +171,8 @@ type c20Call struct {
 	BadPos    int    `json:"bad_pos"` // -1: well-formed
 	BadVal    string `json:"bad_val"`
 	Arity     int    `json:"arity"`
+	// Rep > 0 (malformed calls only): the call is made Rep more times beforehand, nothing in between
+	Rep int `json:"rep,omitempty"`
 }
 
 type c20Case struct {
@@ -305,10 +307,25 @@ func checkC20(c c20Case) verdict {
 			}
 		}
 		probe := jsWireCall{Via: "global", Fn: "generateHOTP", Args: []any{"GEZDGNBVGY3TQOJQGEZDGNBVGY3TQOJQ", i + 1, "8", "SHA256"}}
-		res, err := nd.call([]jsWireCall{{Via: "global", Fn: call.Fn, Args: args}, {Via: "pkg", Fn: call.Fn, Args: args}, probe})
-		if err != nil || len(res) != 3 {
+		batch := []jsWireCall{{Via: "global", Fn: call.Fn, Args: args}, {Via: "pkg", Fn: call.Fn, Args: args}, probe}
+		rep := 0
+		if malformed && call.Rep > 0 {
+			rep = call.Rep
+			for k := 0; k < rep; k++ {
+				batch = append([]jsWireCall{{Via: "global", Fn: call.Fn, Args: args}}, batch...)
+			}
+			labels = append(labels, "repeated-malformed-call")
+		}
+		res, err := nd.call(batch)
+		if err != nil || len(res) != 3+rep {
 			return bad(true, labels, "call %d %s(%v): the module stopped answering: %v", i, call.Fn, args, err)
 		}
+		for k := 0; k < rep; k++ {
+			if sv, isStr := res[k].Value.(string); res[k].Type != "string" || !isStr || !strings.HasPrefix(sv, "error:") {
+				return bad(true, labels, "call %d, repetition %d: malformed %s(%v) returned %v; want a string starting with 'error:'", i, k, call.Fn, args, res[k])
+			}
+		}
+		res = res[rep:]
 		bothErrors := func(a, b jsResult) bool { // two refusals agree, whatever their wording
 			as, aok := a.Value.(string)
 			bs, bok := b.Value.(string)
@@ -435,7 +452,7 @@ func checkC20(c c20Case) verdict {
 }
 
 var c20Main = newPart("C20", "calls",
-	"rapid: call lists (a pure function of the seed) executed by Node against the wasm module built from the working tree and loaded through otp-js/src/index.js; each call is made via globalThis.<name> AND via the object the package exports, followed by a well-formed probe; arguments: counters/timestamps 0..2^53 (boundaries 2^31, 2^32, 2^53), fractional numbers (truncated; a quarter of the lists are related calls under one secret and parameter set with fractions on the time and on the period independently), digits '6','8','9','10' and unknown spellings, three hashes and unknown spellings (among them stored spellings whose hash under one of nine cheap 32-bit hash functions equals that of a known word; also as the URL type word, which must be refused), periods 1..3600, skews 0..10, codes at window distance -(s+2)..+(s+2) and edited; malformed: every argument position x {undefined, null, NaN, -1, -1.5, 1e300, 2^63, +-Infinity, true, {}, [], a BigInt, a boxed String / Number object, a Symbol, a function, a Date, wrong-kind string/number, empty string}, too few / too many arguments (the surplus one a string, undefined once or twice, null), skew 11, period 0; plus two grids run through the same check (malformed-grid: every function x argument position x odd value x contexts period {1,7,10,30,3600} x skew {0,1,10}; related-fractions: runs of steps with fractional periods and instants on both sides of every boundary under one secret); oracle: native library AND independent reference for well-formed calls, 'error:' string for malformed ones, probe still correct; non-trivial = distance != 0 or digits != '6' or edited code or fractional number or malformed",
+	"rapid: call lists (a pure function of the seed) executed by Node against the wasm module built from the working tree and loaded through otp-js/src/index.js; each call is made via globalThis.<name> AND via the object the package exports, followed by a well-formed probe (a sixth of the lists: one malformed call made 5..14 times in a row before the probe and further well-formed calls); arguments: counters/timestamps 0..2^53 (boundaries 2^31, 2^32, 2^53), fractional numbers (truncated; a quarter of the lists are related calls under one secret and parameter set with fractions on the time and on the period independently), digits '6','8','9','10' and unknown spellings, three hashes and unknown spellings (among them stored spellings whose hash under one of nine cheap 32-bit hash functions equals that of a known word; also as the URL type word, which must be refused), periods 1..3600, skews 0..10, codes at window distance -(s+2)..+(s+2) and edited; malformed: every argument position x {undefined, null, NaN, -1, -1.5, 1e300, 2^63, +-Infinity, true, {}, [], a BigInt, a boxed String / Number object, a Symbol, a function, a Date, wrong-kind string/number, empty string}, too few / too many arguments (the surplus one a string, undefined once or twice, null), skew 11, period 0; plus two grids run through the same check (malformed-grid: every function x argument position x odd value x contexts period {1,7,10,30,3600} x skew {0,1,10}; related-fractions: runs of steps with fractional periods and instants on both sides of every boundary under one secret); oracle: native library AND independent reference for well-formed calls, 'error:' string for malformed ones, probe still correct; non-trivial = distance != 0 or digits != '6' or edited code or fractional number or malformed",
 	checkC20)
 
 func drawC20Call(t *rapid.T) c20Call {
@@ -585,6 +602,30 @@ func TestC20_Calls(t *testing.T) {
 					x.N += uint64(x.Period) * 3
 				}
 				c.Calls = append(c.Calls, x)
+			}
+			return c
+		}
+		if rapid.IntRange(0, 5).Draw(t, "repeat") == 0 {
+			// the SAME malformed call 5..14 times without anything in between, then the probe and well-formed calls: "leave the module
+			// usable" also after a client that retries its mistake (a binding that backs off after repeated errors answers
+			// the well-formed calls with the stored error)
+			var badCall c20Call
+			for k := 0; ; k++ {
+				badCall = drawC20Call(t)
+				if badCall.BadPos >= 0 || badCall.Arity != 0 {
+					break
+				}
+				if k > 20 {
+					badCall.Arity = -1
+					break
+				}
+			}
+			badCall.Rep = rapid.IntRange(3, 12).Draw(t, "repeatN") // + the call through the global + the one through the package
+			c.Calls = append(c.Calls, badCall)
+			for k, m := 0, rapid.IntRange(1, 3).Draw(t, "afterN"); k < m; k++ {
+				g := drawC20Call(t)
+				g.BadPos, g.Arity = -1, 0
+				c.Calls = append(c.Calls, g)
 			}
 			return c
 		}
